@@ -11,6 +11,18 @@ import xarray as xr
 from harness import xvio
 
 ID = 'C12'
+LEVEL_TEXT = ('Proved in Coq for all inputs (any ascending NaN-free bin list of any length, +-inf bins and ties allowed, any value): the '
+              'hand-written binary search of _cpu_bin (modelled with Numba\'s wrapping negative index and explicit fuel) terminates and returns '
+              'the FIRST bin >= the value, NaN only above the last bin and on NaN/inf cells (C12_reclassify_first_bin); binary is 1 exactly on '
+              'listed values, 0 on other finite cells, NaN otherwise (C12_binary_spec); for bins whose last element is >= the value every finite '
+              'cell gets an integer class in [0,k-1] (C12_class_range), classes are order preserving (C12_class_monotone) and unique; '
+              'equal_interval over exact cuts gives class i exactly on the i-th equal-width interval (C12_equal_interval_bands). '
+              'The tie to the code is the correspondence (all five public classifiers vs the extracted model, bins captured at the _bin call, '
+              'exhaustive value-vs-bin positions for 1..12 (24 thorough) bins). Oracle-only (exact arithmetic in Python, not Coq theorems): '
+              'the float cut construction of equal_interval/quantile and Jenks optimality of natural_breaks on small inputs.')
+LEVEL_NOTE = ('Trusted: Coq kernel; extraction (ExtrOcamlBasic); the order-preserving embedding of one case\'s finite doubles into Z; the harness/oracle; '
+              'Numba compiles _cpu_bin/_cpu_binary as the model reads them (checked by correspondence only); np.percentile/np.arange/np.unique and the '
+              'Jenks DP are not modelled. All C12 theorems are closed under the global context (no axioms).')
 RULE = ('reclassify: for every bin count 1..N every position of a value relative to the bins (below first, equal to each '
         'bin, between each pair, above last, NaN, +-inf) x bin lists with ties / +-inf ends x dtypes; binary: random value '
         'lists incl. NaN/inf; quantile/equal_interval/natural_breaks: random rasters (ties, NaN/inf, float32/float64/int, '
@@ -22,7 +34,7 @@ TRUSTED = [
     'the bins of the data-driven classifiers (np.percentile, np.arange, the Jenks DP) are taken from the implementation '
     '(captured at its _bin call) and checked by the Python oracle, not modelled in Coq',
 ]
-ASSUMPTIONS = ['NumPy backend only (Dask equality is C01); bins passed to reclassify are ascending and NaN-free (the property\'s domain)']
+ASSUMPTIONS = ['equal_interval needs two distinct finite values (min < max; otherwise the k intervals are undefined and np.arange raises)', 'NumPy backend only (Dask equality is C01); bins passed to reclassify are ascending and NaN-free (the property\'s domain)']
 PARTIAL = [
     'natural_breaks optimality (minimum within-class SSD): checked by the exact-arithmetic oracle on small inputs, not a Coq theorem',
     'equal_interval / quantile bin construction: oracle only (float arange / percentile are NumPy primitives)',
@@ -362,6 +374,8 @@ def run(ctx):
         finite = a[np.isfinite(a)] if a.dtype.kind == 'f' else a.ravel()
         if finite.size == 0:
             continue
+        if fn == 'equal_interval' and float(finite.min()) == float(finite.max()):
+            continue   # degenerate [min, max]: k equal-width intervals are undefined (np.arange raises); outside the domain
         f32exact = bool(np.all(finite.astype('float64') == finite.astype('float32').astype('float64')))
         case = dict(fn=fn, k=k, data=to_floats(a), dtype=dtype, kind=kind, f32exact=f32exact)
         ctx.case(case)
